@@ -215,6 +215,10 @@ func (lk *Link) refs(g *Graph, mod string, fn Item) []binding {
 				out = append(out, b)
 			}
 		}
+		// the function value handed in by the caller (whatever module it comes from)
+		if g.Callback != "" {
+			out = append(out, binding{Item: Item{Name: "cb", Kind: "cb"}})
+		}
 		// visible types, by name
 		var tk []string
 		for _, k := range lk.visSeq[mod] {
@@ -288,8 +292,11 @@ func (lk *Link) Expected(g *Graph) string {
 		}
 	}
 	depth := 0
-	var call func(origin string, fn Item) string
-	call = func(origin string, fn Item) string {
+	// call evaluates function fn of module origin; cb is the function value it was handed (edge
+	// functions of a Callback graph). It returns the function's result and whether the result leaves
+	// the function as an exception.
+	var call func(origin string, fn Item, cb *binding) (string, bool)
+	call = func(origin string, fn Item, cb *binding) (string, bool) {
 		depth++
 		if depth > 200 {
 			panic("c15 model: recursion in a generated program")
@@ -306,8 +313,20 @@ func (lk *Link) Expected(g *Graph) string {
 		var parts []string
 		for _, r := range lk.refs(g, origin, fn) {
 			switch r.Item.Kind {
-			case "fn":
-				parts = append(parts, call(r.Origin, r.Item))
+			case "fn", "cb":
+				target := r
+				if r.Item.Kind == "cb" {
+					target = *cb
+				}
+				text, threw := call(target.Origin, target.Item, lk.passes(g, origin, fn, target.Item, cb))
+				if threw {
+					if g.Catch == "entry" {
+						// nobody catches it here: the rest of this function does not run
+						return text, true
+					}
+					text = "!" + text
+				}
+				parts = append(parts, text)
 			case "let":
 				parts = append(parts, glob[r.Origin+"."+r.Item.Name])
 			case "type":
@@ -317,13 +336,18 @@ func (lk *Link) Expected(g *Graph) string {
 		for _, s := range sings {
 			parts = append(parts, "["+sing[origin+"."+s.Name]+"]")
 		}
-		return origin + "." + fn.Name + "(" + strings.Join(parts, ",") + ")"
+		return origin + "." + fn.Name + "(" + strings.Join(parts, ",") + ")", g.throws()
 	}
 	var sb strings.Builder
+	entry := g.Mods[0].Name
 	for _, b := range lk.mainPrints(g) {
 		sb.WriteString(b.Item.Name + "=")
 		if b.Item.Kind == "fn" {
-			sb.WriteString(call(b.Origin, b.Item))
+			text, threw := call(b.Origin, b.Item, lk.passes(g, entry, Item{Name: "main", Kind: "fn"}, b.Item, nil))
+			if threw {
+				text = "!" + text
+			}
+			sb.WriteString(text)
 		} else {
 			sb.WriteString(glob[b.Origin+"."+b.Item.Name])
 		}
@@ -334,6 +358,23 @@ func (lk *Link) Expected(g *Graph) string {
 	}
 	sb.WriteString("end\n")
 	return sb.String()
+}
+
+// passes says which function value a call of target made by function fn of module mod hands over
+// (fn's own parameter is cb): edge functions of a Callback graph are handed the private function k
+// as the calling module sees it, or - relay - what the calling edge function was handed itself.
+func (lk *Link) passes(g *Graph, mod string, fn Item, target Item, cb *binding) *binding {
+	if g.Callback == "" || !target.Edge {
+		return nil
+	}
+	if g.Callback == "relay" && fn.Edge && cb != nil {
+		return cb
+	}
+	b, ok := lk.vis[mod][key(cbName, false)]
+	if !ok {
+		panic("c15 model: module " + mod + " of a callback graph has no function " + cbName)
+	}
+	return &b
 }
 
 // ---------------------------------------------------------------------------------------------
